@@ -237,3 +237,17 @@ def col_optional(opts, col, is_object_like):
     if hn == "infer":
         return is_object_like
     return col in hn
+
+
+def required_with_missing(fr, opts, kinds=("category",)):
+    """Columns of the given kinds that hold missing cells but are written REQUIRED
+    (has_nulls False / 'infer' for non-object / not listed): the library does not
+    reject this combination and writes a -1 dictionary index (see C18); checks
+    about reading stay away from such files."""
+    out = []
+    n = fr["n"]
+    for c in fr["cols"] + ([fr["index"]] if fr.get("index") else []):
+        if c["kind"] in kinds and has_missing(c, n):
+            if not col_optional(opts, c["name"], False):
+                out.append(c["name"])
+    return out
